@@ -373,4 +373,525 @@ func FuncLabel(prog *ir.Program, fn *ir.Function) string {
 	return s
 }
 
-var _ = types.Identical
+
+
+// ---------------------------------------------------------------------------- instructions, values, types
+//
+// Serialised form of one function (JSON field names = Go field names; Gallina constructors in
+// coq/Model/C02.v carry the same data in the same order):
+//
+//   IRFunc  { Blocks []IRBlock; Recover int; Params, FreeVars, Anons []IRLocal; Results []int; Types []IRType }
+//   IRBlock { Index int (the BasicBlock.Index field); Preds, Succs []int (positions in fn.Blocks); Instrs []IRInstr }
+//   IRInstr { Seq int (0-based position in block order, the id other records refer to); ID int (Instruction.ID());
+//             Kind string (Go type name: "Store", "Phi", ...); Ops []IRVal; Refs []int (Seq of referrers; -1 = an
+//             instruction that is not in the function); HasRefs bool (Referrers() != nil); Type int; Aux []int }
+//   IRVal   { K string: i(nstruction Seq) p(aram idx) f(reevar idx) a(non. function idx) c(onst) g(lobal) F(unction)
+//             b(uiltin) n(il) x(foreign: instruction/param/freevar of another function, or unknown); N int; T int (type id) }
+//   IRLocal { Type int; Refs []int }                      (a value without position: Parameter, FreeVar, anonymous Function)
+//   IRType  { ID int (1-based; 0 = no type); Kind string; Str string; Under, Core, Elem, Key int; Fields, Params, Results []int;
+//             Variadic bool; Dir int; Len int64; Flags int (basic: 1 boolean 2 integer 4 unsigned 8 float 16 complex 32 string 64 untyped 128 unsafe.Pointer) }
+//
+// Type ids are equal iff go/types.Identical holds (interned through typeutil.Map); opaque types of go/ir
+// (deferStack, iter) are interned by name. Under/Core/Elem/... are ids of the go/types accessors' results.
+
+type IRVal struct {
+	K string
+	N int
+	T int
+}
+
+type IRInstr struct {
+	Seq     int
+	ID      int
+	Kind    string
+	Ops     []IRVal
+	Refs    []int
+	HasRefs bool
+	Type    int
+	Aux     []int
+	Str     string `json:",omitempty"`
+}
+
+type IRBlock struct {
+	Index  int
+	Preds  []int
+	Succs  []int
+	Instrs []IRInstr
+}
+
+type IRLocal struct {
+	Type int
+	Refs []int
+}
+
+type IRType struct {
+	ID      int
+	Kind    string
+	Str     string
+	Under   int
+	Core    int
+	Elem    int
+	Key     int
+	Fields  []int
+	Params  []int
+	Results []int
+	Variadic bool
+	Dir     int
+	Len     int64
+	Flags   int
+}
+
+type IRFunc struct {
+	Blocks   []IRBlock
+	Recover  int
+	Params   []IRLocal
+	FreeVars []IRLocal
+	Anons    []IRLocal
+	Results  []int
+	NInstr   int
+}
+
+// TypeTable interns types for one ir.Program.
+type TypeTable struct {
+	m      typeutilMap
+	opaque map[string]int
+	Types  []*IRType
+}
+
+func NewTypeTable() *TypeTable {
+	return &TypeTable{m: newTypeutilMap(), opaque: map[string]int{}}
+}
+
+func isStdType(t types.Type) bool {
+	switch t.(type) {
+	case *types.Basic, *types.Named, *types.Pointer, *types.Slice, *types.Array, *types.Map, *types.Chan, *types.Struct,
+		*types.Tuple, *types.Signature, *types.Interface, *types.TypeParam, *types.Alias, *types.Union:
+		return true
+	}
+	return false
+}
+
+// coreOf: for a type parameter the single underlying type shared by all terms of its constraint (nil if
+// none); for every other type its underlying type.
+func coreOf(t types.Type) types.Type {
+	tp, ok := types.Unalias(t).(*types.TypeParam)
+	if !ok {
+		return t.Underlying()
+	}
+	var terms []types.Type
+	var walk func(t types.Type, depth int) bool
+	walk = func(t types.Type, depth int) bool {
+		if depth > 8 {
+			return false
+		}
+		switch u := t.Underlying().(type) {
+		case *types.Interface:
+			if p, ok := types.Unalias(t).(*types.TypeParam); ok && depth > 0 {
+				return walk(p.Constraint(), depth+1)
+			}
+			any := false
+			for i := 0; i < u.NumEmbeddeds(); i++ {
+				et := u.EmbeddedType(i)
+				if un, ok := types.Unalias(et).(*types.Union); ok {
+					for j := 0; j < un.Len(); j++ {
+						if !walk(un.Term(j).Type(), depth+1) {
+							return false
+						}
+						any = true
+					}
+				} else if _, isIface := et.Underlying().(*types.Interface); isIface {
+					if !walk(et, depth+1) {
+						return false
+					}
+				} else {
+					terms = append(terms, et.Underlying())
+					any = true
+				}
+			}
+			_ = any
+			return true
+		default:
+			terms = append(terms, u)
+			return true
+		}
+	}
+	if !walk(tp.Constraint(), 0) || len(terms) == 0 {
+		return nil
+	}
+	for _, x := range terms[1:] {
+		if !types.Identical(x, terms[0]) {
+			return nil
+		}
+	}
+	return terms[0]
+}
+
+// containsNonStd reports whether t mentions (outside named types) a type that is not one of go/types'
+// own kinds, e.g. go/ir's opaque deferStack / iter types; typeutil.Map cannot hash those.
+func containsNonStd(t types.Type) bool {
+	if t == nil {
+		return false
+	}
+	if !isStdType(t) {
+		return true
+	}
+	switch u := types.Unalias(t).(type) {
+	case *types.Pointer:
+		return containsNonStd(u.Elem())
+	case *types.Slice:
+		return containsNonStd(u.Elem())
+	case *types.Array:
+		return containsNonStd(u.Elem())
+	case *types.Chan:
+		return containsNonStd(u.Elem())
+	case *types.Map:
+		return containsNonStd(u.Key()) || containsNonStd(u.Elem())
+	case *types.Tuple:
+		for i := 0; i < u.Len(); i++ {
+			if containsNonStd(u.At(i).Type()) {
+				return true
+			}
+		}
+	case *types.Signature:
+		return containsNonStd(u.Params()) || containsNonStd(u.Results())
+	case *types.Struct:
+		for i := 0; i < u.NumFields(); i++ {
+			if containsNonStd(u.Field(i).Type()) {
+				return true
+			}
+		}
+	}
+	return false
+}
+
+func (tt *TypeTable) ID(t types.Type) int {
+	if t == nil {
+		return 0
+	}
+	if tu, ok := t.(*types.Tuple); ok && tu == nil {
+		// go/types represents the empty tuple as a nil *Tuple (types.NewTuple() and Signature.Results() return it)
+		if id, ok := tt.opaque["tuple()"]; ok {
+			return id
+		}
+		e := &IRType{ID: len(tt.Types) + 1, Kind: "tuple", Str: "()"}
+		tt.Types = append(tt.Types, e)
+		tt.opaque["tuple()"] = e.ID
+		e.Under, e.Core = e.ID, e.ID
+		return e.ID
+	}
+	if !isStdType(t) {
+		if id, ok := tt.opaque[t.String()]; ok {
+			return id
+		}
+		e := &IRType{ID: len(tt.Types) + 1, Kind: "opaque", Str: t.String()}
+		tt.Types = append(tt.Types, e)
+		tt.opaque[t.String()] = e.ID
+		e.Under, e.Core = e.ID, e.ID
+		return e.ID
+	}
+	nonstd := containsNonStd(t)
+	nskey := "composite:" + t.String()
+	if sig, ok := t.(*types.Signature); ok && (sig.TypeParams().Len() > 0 || sig.RecvTypeParams().Len() > 0) {
+		// types.Identical unifies the type parameters of two generic signatures positionally, so distinct generic
+		// functions would share one entry whose Params/Results mention the type parameters of only one of them:
+		// generic signatures are interned by object identity instead
+		nonstd = true
+		nskey = fmt.Sprintf("gsig:%p", sig)
+	}
+	if nonstd {
+		if id, ok := tt.opaque[nskey]; ok {
+			return id
+		}
+	} else if id, ok := tt.m.At(t); ok {
+		return id
+	}
+	e := &IRType{ID: len(tt.Types) + 1, Str: types.TypeString(t, func(p *types.Package) string { return p.Name() })}
+	tt.Types = append(tt.Types, e)
+	if nonstd {
+		tt.opaque[nskey] = e.ID
+	} else {
+		tt.m.Set(t, e.ID)
+	}
+	switch u := types.Unalias(t).(type) {
+	case *types.Named:
+		e.Kind = "named"
+	case *types.TypeParam:
+		e.Kind = "tparam"
+	case *types.Basic:
+		e.Kind = "basic"
+		info := u.Info()
+		if info&types.IsBoolean != 0 {
+			e.Flags |= 1
+		}
+		if info&types.IsInteger != 0 {
+			e.Flags |= 2
+		}
+		if info&types.IsUnsigned != 0 {
+			e.Flags |= 4
+		}
+		if info&types.IsFloat != 0 {
+			e.Flags |= 8
+		}
+		if info&types.IsComplex != 0 {
+			e.Flags |= 16
+		}
+		if info&types.IsString != 0 {
+			e.Flags |= 32
+		}
+		if info&types.IsUntyped != 0 {
+			e.Flags |= 64
+		}
+		if u.Kind() == types.UnsafePointer {
+			e.Flags |= 128
+		}
+	case *types.Pointer:
+		e.Kind = "pointer"
+		e.Elem = tt.ID(u.Elem())
+	case *types.Slice:
+		e.Kind = "slice"
+		e.Elem = tt.ID(u.Elem())
+	case *types.Array:
+		e.Kind = "array"
+		e.Elem = tt.ID(u.Elem())
+		e.Len = u.Len()
+	case *types.Map:
+		e.Kind = "map"
+		e.Key = tt.ID(u.Key())
+		e.Elem = tt.ID(u.Elem())
+	case *types.Chan:
+		e.Kind = "chan"
+		e.Elem = tt.ID(u.Elem())
+		e.Dir = int(u.Dir())
+	case *types.Struct:
+		e.Kind = "struct"
+		for i := 0; i < u.NumFields(); i++ {
+			e.Fields = append(e.Fields, tt.ID(u.Field(i).Type()))
+		}
+	case *types.Tuple:
+		e.Kind = "tuple"
+		for i := 0; i < u.Len(); i++ {
+			e.Fields = append(e.Fields, tt.ID(u.At(i).Type()))
+		}
+	case *types.Signature:
+		e.Kind = "sig"
+		for i := 0; i < u.Params().Len(); i++ {
+			e.Params = append(e.Params, tt.ID(u.Params().At(i).Type()))
+		}
+		for i := 0; i < u.Results().Len(); i++ {
+			e.Results = append(e.Results, tt.ID(u.Results().At(i).Type()))
+		}
+		e.Variadic = u.Variadic()
+	case *types.Interface:
+		e.Kind = "iface"
+	case *types.Union:
+		e.Kind = "union"
+	default:
+		e.Kind = "other"
+	}
+	e.Under = tt.ID(t.Underlying())
+	if c := coreOf(t); c != nil {
+		e.Core = tt.ID(c)
+	}
+	return e.ID
+}
+
+// SerFunc serialises fn. Instructions are numbered by position (block order); every reference to an
+// instruction is resolved by pointer identity against that numbering.
+func SerFunc(fn *ir.Function, tt *TypeTable, withStr bool) *IRFunc {
+	pos := BlockPositions(fn)
+	seq := map[ir.Instruction]int{}
+	n := 0
+	for _, b := range fn.Blocks {
+		for _, instr := range b.Instrs {
+			if instr != nil {
+				seq[instr] = n
+			}
+			n++
+		}
+	}
+	params := map[*ir.Parameter]int{}
+	for i, p := range fn.Params {
+		params[p] = i
+	}
+	frees := map[*ir.FreeVar]int{}
+	for i, p := range fn.FreeVars {
+		frees[p] = i
+	}
+	anons := map[*ir.Function]int{}
+	for i, p := range fn.AnonFuncs {
+		anons[p] = i
+	}
+	refsOf := func(v ir.Value) ([]int, bool) {
+		rp := v.Referrers()
+		if rp == nil {
+			return nil, false
+		}
+		res := make([]int, 0, len(*rp))
+		for _, r := range *rp {
+			if s, ok := seq[r]; ok && r != nil {
+				res = append(res, s)
+			} else {
+				res = append(res, -1)
+			}
+		}
+		return res, true
+	}
+	val := func(v ir.Value) IRVal {
+		if v == nil {
+			return IRVal{K: "n"}
+		}
+		t := tt.ID(v.Type())
+		switch v := v.(type) {
+		case *ir.Parameter:
+			if i, ok := params[v]; ok {
+				return IRVal{"p", i, t}
+			}
+			return IRVal{"x", 0, t}
+		case *ir.FreeVar:
+			if i, ok := frees[v]; ok {
+				return IRVal{"f", i, t}
+			}
+			return IRVal{"x", 1, t}
+		case *ir.Const, *ir.AggregateConst:
+			return IRVal{"c", 0, t}
+		case *ir.Global:
+			return IRVal{"g", 0, t}
+		case *ir.Builtin:
+			return IRVal{"b", 0, t}
+		case *ir.Function:
+			if i, ok := anons[v]; ok {
+				return IRVal{"a", i, t}
+			}
+			if v.Parent() != nil {
+				return IRVal{"x", 2, t} // anonymous function of another function used as an operand
+			}
+			return IRVal{"F", 0, t}
+		}
+		if instr, ok := v.(ir.Instruction); ok {
+			if s, ok := seq[instr]; ok {
+				return IRVal{"i", s, t}
+			}
+			return IRVal{"x", 3, t}
+		}
+		return IRVal{"x", 4, t}
+	}
+	out := &IRFunc{Recover: BlockIndex(pos, fn.Recover), NInstr: n}
+	for _, p := range fn.Params {
+		r, _ := refsOf(p)
+		out.Params = append(out.Params, IRLocal{tt.ID(p.Type()), r})
+	}
+	for _, p := range fn.FreeVars {
+		r, _ := refsOf(p)
+		out.FreeVars = append(out.FreeVars, IRLocal{tt.ID(p.Type()), r})
+	}
+	for _, p := range fn.AnonFuncs {
+		r, _ := refsOf(p)
+		out.Anons = append(out.Anons, IRLocal{tt.ID(p.Type()), r})
+	}
+	for i := 0; i < fn.Signature.Results().Len(); i++ {
+		out.Results = append(out.Results, tt.ID(fn.Signature.Results().At(i).Type()))
+	}
+	b2i := func(b bool) int {
+		if b {
+			return 1
+		}
+		return 0
+	}
+	callAux := func(c *ir.CallCommon) []int {
+		// [mode, receiver type of the callee's signature (0 = none), method signature (invoke mode)]
+		if c.IsInvoke() {
+			return []int{1, 0, tt.ID(c.Method.Type())}
+		}
+		if _, ok := c.Value.(*ir.Builtin); ok {
+			return []int{2, 0, 0}
+		}
+		recv := 0
+		if c.Value != nil {
+			if sig, ok := coreOf(c.Value.Type()).(*types.Signature); ok && sig.Recv() != nil {
+				recv = tt.ID(sig.Recv().Type())
+			}
+		}
+		return []int{0, recv, 0}
+	}
+	k := 0
+	for _, b := range fn.Blocks {
+		sb := IRBlock{Index: b.Index, Preds: []int{}, Succs: []int{}}
+		for _, c := range b.Preds {
+			sb.Preds = append(sb.Preds, BlockIndex(pos, c))
+		}
+		for _, c := range b.Succs {
+			sb.Succs = append(sb.Succs, BlockIndex(pos, c))
+		}
+		for _, instr := range b.Instrs {
+			si := IRInstr{Seq: k}
+			k++
+			if instr == nil {
+				si.Kind = "Nil"
+				sb.Instrs = append(sb.Instrs, si)
+				continue
+			}
+			si.ID = int(instr.ID())
+			si.Kind = strings.TrimPrefix(fmt.Sprintf("%T", instr), "*ir.")
+			if withStr {
+				si.Str = instr.String()
+			}
+			for _, op := range instr.Operands(nil) {
+				si.Ops = append(si.Ops, val(*op))
+			}
+			if v, ok := instr.(ir.Value); ok {
+				si.Type = tt.ID(v.Type())
+				si.Refs, si.HasRefs = refsOf(v)
+			}
+			if instr.Block() != b {
+				si.Aux = append(si.Aux, -1) // Block() does not point back to the containing block
+				si.Kind = "Misplaced:" + si.Kind
+			}
+			switch x := instr.(type) {
+			case *ir.BinOp:
+				si.Aux = []int{int(x.Op)}
+			case *ir.UnOp:
+				si.Aux = []int{int(x.Op)}
+			case *ir.FieldAddr:
+				si.Aux = []int{x.Field}
+			case *ir.Field:
+				si.Aux = []int{x.Field}
+			case *ir.Extract:
+				si.Aux = []int{x.Index}
+			case *ir.MapLookup:
+				si.Aux = []int{b2i(x.CommaOk)}
+			case *ir.Recv:
+				si.Aux = []int{b2i(x.CommaOk)}
+			case *ir.TypeAssert:
+				si.Aux = []int{b2i(x.CommaOk), tt.ID(x.AssertedType)}
+			case *ir.Call:
+				si.Aux = callAux(&x.Call)
+			case *ir.Go:
+				si.Aux = callAux(&x.Call)
+			case *ir.Defer:
+				si.Aux = callAux(&x.Call)
+			case *ir.MakeClosure:
+				if f, ok := x.Fn.(*ir.Function); ok {
+					for _, fv := range f.FreeVars {
+						si.Aux = append(si.Aux, tt.ID(fv.Type()))
+					}
+				} else {
+					si.Aux = []int{-1}
+				}
+			case *ir.Select:
+				si.Aux = []int{b2i(x.Blocking)}
+				for _, st := range x.States {
+					si.Aux = append(si.Aux, int(st.Dir))
+				}
+			case *ir.Alloc:
+				si.Aux = []int{b2i(x.Heap)}
+			case *ir.Next:
+				si.Aux = []int{b2i(x.IsString)}
+			case *ir.DebugRef:
+				si.Aux = []int{b2i(x.IsAddr)}
+			}
+			sb.Instrs = append(sb.Instrs, si)
+		}
+		out.Blocks = append(out.Blocks, sb)
+	}
+	return out
+}
